@@ -660,6 +660,34 @@ func derivesFrom(v, src ssa.Value) bool {
 			}
 			return false
 		}
+		if al, ok := x.(*ssa.Alloc); ok {
+			// a local struct/array copy: whole-value stores and element/field stores
+			for _, st := range cellStores(al) {
+				if walk(st.Val, d+1) {
+					return true
+				}
+			}
+			if refs := al.Referrers(); refs != nil {
+				for _, r := range *refs {
+					var addr ssa.Value
+					switch y := r.(type) {
+					case *ssa.FieldAddr:
+						addr = y
+					case *ssa.IndexAddr:
+						addr = y
+					}
+					if addr == nil || addr.Referrers() == nil {
+						continue
+					}
+					for _, u := range *addr.Referrers() {
+						if st, ok := u.(*ssa.Store); ok && st.Addr == addr && walk(st.Val, d+1) {
+							return true
+						}
+					}
+				}
+			}
+			return false
+		}
 		in, ok := x.(ssa.Instruction)
 		if !ok {
 			return false
